@@ -130,6 +130,17 @@ func (tb *Table) pieces0(t *Term) []piece {
 			}
 			return append([]piece{zeroPiece(n)}, slicePieces(tb.pieces(t.Args[0]), w-1, n)...)
 		}
+	case "bvashr":
+		// the low w-n bits are bits w-1..n of the operand; the n sign copies stay a slice of the term itself
+		if k := t.Args[1]; k.IsConst() {
+			n := int(k.Val)
+			if n == 0 {
+				return tb.pieces(t.Args[0])
+			}
+			if n < w {
+				return append([]piece{{t, w - 1, w - n}}, slicePieces(tb.pieces(t.Args[0]), w-1, n)...)
+			}
+		}
 	case "bvand":
 		a, b := t.Args[0], t.Args[1]
 		if a.IsConst() {
